@@ -22,3 +22,26 @@ def run(ctx):
     # server-triggered panic
     import c15
     ctx.include(c15.run, ('R15.4',), 'R07.2')
+    # ---- R07.3 the element callback handed to yasna's read_sequence_of consumes input on every Ok path: yasna loops until the callback fails
+    # *without having moved the read position*; a callback that returns Ok(()) without reading (an element cap, a filter) never terminates the loop,
+    # i.e. a peer-chosen element count hangs the client
+    from common import feasible_paths, path_calls, ret_kind
+    P = ctx.prog
+    n_cb = 0
+    for k, b in sorted(P.bodies.items()):
+        if b.kind != 'Closure' or 'SequenceOf as nla::asn1::ASN1>::read_asn1::{closure' not in k:
+            continue
+        for path, st in feasible_paths(b, P, limit=5000):
+            if ret_kind(st.env.get(0)) != 'ok':
+                continue
+            from common import path_branches, strip
+            # (a SequenceOf without element factory is a writer-side value: SequenceOf::reader(..) always sets one; that arm is not a read path)
+            if any(strip(ev[2])[0] == 'discr' and strip(strip(ev[2])[1])[0] == 'field' and strip(strip(ev[2])[1])[2] == 'factory' and ev[3] in (0, None)
+                   for ev in path_branches(st)):
+                continue
+            n_cb += 1
+            rd = path_calls(st, 'nla::asn1::ASN1::read_asn1')
+            ctx.check(len(rd) >= 1, 'R07.3', 'sequence_of:callback_reads', 'every Ok path of the SequenceOf element callback reads one element from the reader', b.where(),
+                      'the SequenceOf element callback has an Ok path that reads nothing from the BER reader: yasna::read_sequence_of calls it again for ever '
+                      '(the loop only ends when the callback fails without consuming input), so a TSRequest with enough negoTokens hangs the client')
+    ctx.floor('R07.3', 'Ok paths of the SequenceOf element callback', n_cb, 1)
